@@ -154,20 +154,31 @@ impl<T> SocksRequest<T> {
         socket.write_u8(self.cmd).await.context("cmd")?;
         let (dst, dport, target) = match &self.target {
             TargetAddress::DomainPort(domain, port) => {
+                if domain.as_bytes().contains(&0) {
+                    bail!("domain name contains NUL: {:?}", domain)
+                }
                 ([0, 0, 0, 1], *port, Some(domain.as_bytes()))
             }
             TargetAddress::SocketAddr(a) => {
                 if let IpAddr::V4(v4) = a.ip() {
-                    (v4.octets(), a.port(), None)
+                    let dst = v4.octets();
+                    if dst[0] == 0 && dst[1] == 0 && dst[2] == 0 && dst[3] != 0 {
+                        // 0.0.0.x is the socks4a marker for "domain name follows"
+                        bail!("address not supported in socks4: {}", self.target)
+                    }
+                    (dst, a.port(), None)
                 } else {
                     bail!("ipv6 not supported in socks4: {}", self.target)
                 }
             }
-            _ => unreachable!(),
+            _ => bail!("not supported target: {}", self.target),
         };
         socket.write_u16(dport).await.context("dport")?;
         socket.write_all(&dst).await.context("dport")?;
         let cid = auth.auth_v4(&self.auth).await?;
+        if cid.as_bytes().contains(&0) {
+            bail!("client id contains NUL")
+        }
         socket.write_all(cid.as_bytes()).await.context("cid")?;
         socket.write_u8(0).await.context("cid")?;
         if let Some(target) = target {
@@ -207,6 +218,9 @@ impl<T> SocksRequest<T> {
         let (t, addr, port) = match &self.target {
             TargetAddress::DomainPort(domain, port) => {
                 let mut x = Vec::from(domain.as_bytes());
+                if x.len() > 255 {
+                    bail!("domain name too long: {:?}", domain)
+                }
                 x.insert(0, x.len() as u8);
                 (SOCKS_ATYP_DOMAIN, x, *port)
             }
@@ -335,6 +349,9 @@ impl SocksAuthClient<Option<(String, String)>> for PasswordAuth {
             SOCKS_AUTH_NONE => Ok(()),
             SOCKS_AUTH_USRPWD => {
                 let (user, pass) = data.as_ref().unwrap();
+                if user.len() > 255 || pass.len() > 255 {
+                    bail!("username or password too long")
+                }
                 socket.write_u8(1).await.context("auth version")?;
                 socket
                     .write_u8(user.len() as u8)
@@ -453,6 +470,9 @@ impl SocksResponse {
         let (t, addr, port) = match &self.target {
             TargetAddress::DomainPort(domain, port) => {
                 let bytes = domain.as_bytes();
+                if bytes.len() > 255 {
+                    bail!("domain name too long: {:?}", domain)
+                }
                 let mut x = vec![bytes.len() as u8];
                 x.extend(bytes);
                 (SOCKS_ATYP_DOMAIN, x, *port)
